@@ -405,8 +405,10 @@ SyncKilledStep ==
           /\ UNCHANGED snap
 
 SelOf(a) == [d \in D |-> ToSet(a.sel[d])]
-ExtOf(a) == IF "ext" \in DOMAIN a THEN [stamp |-> ToSet(a.ext.stamp), blocks |-> ToSet(a.ext.blocks), reduced |-> Reduced]
-            ELSE [NoExt EXCEPT !.reduced = Reduced]
+\* -N (--force-nocopy) given to check or fix: the files of the array are not searched for copies of a bad block (snapraid.c:1529)
+NoCopyOf(a) == "flags" \in DOMAIN a /\ \E i \in 1..Len(a.flags) : a.flags[i] \in {"-N", "--force-nocopy"}
+ExtOf(a) == (IF "ext" \in DOMAIN a THEN [stamp |-> ToSet(a.ext.stamp), blocks |-> ToSet(a.ext.blocks), reduced |-> Reduced]
+             ELSE [NoExt EXCEPT !.reduced = Reduced]) @@ [nocopy |-> NoCopyOf(a)]
 
 (* fix as seen through the paths: after the stripes, fix re-creates every recorded link that is not right (check.c:1590-1760):
    a recorded hard link becomes a name of its target's inode (whatever was at that path is removed first), a recorded symbolic
